@@ -258,6 +258,43 @@ pub async fn convergence_problems(net: &Net, holder: &Arc<BrokerHolder>, limit: 
                     None => problems.push(format!("proxy {} gave no CLUSTER SLOTS", a)),
                 }
             }
+            // replication roles as the proxy itself reports them (UMCTL INFOREPL): every local node with
+            // its role and exactly the peers of the broker's view
+            {
+                let mut expect: BTreeSet<(String, String, Vec<String>)> = BTreeSet::new();
+                for n in want.get_nodes() {
+                    let role = if n.get_role() == Role::Master { "master" } else { "replica" };
+                    let mut peers: Vec<String> = n.get_repl_meta().get_peers().iter().map(|p| format!("{}@{}", p.node_address, p.proxy_address)).collect();
+                    peers.sort();
+                    expect.insert((role.to_string(), n.get_address().to_string(), peers));
+                }
+                if let Ok(Resp::Arr(Array::Arr(items))) = umctl(&mut cl, a, &[b"UMCTL", b"INFOREPL"]).await {
+                    let mut got: BTreeSet<(String, String, Vec<String>)> = BTreeSet::new();
+                    for it in items.iter() {
+                        let lines = resp_to_strings(it);
+                        let mut role = String::new();
+                        let mut node = String::new();
+                        let mut peers = vec![];
+                        for l in lines.iter() {
+                            let l = l.trim();
+                            if let Some(v) = l.strip_prefix("role:") {
+                                role = v.to_string();
+                            } else if let Some(v) = l.strip_prefix("node_address:") {
+                                node = v.to_string();
+                            } else if let Some(v) = l.strip_prefix("replica:").or_else(|| l.strip_prefix("master:")) {
+                                peers.push(v.to_string());
+                            }
+                        }
+                        peers.sort();
+                        if !node.is_empty() {
+                            got.insert((role, node, peers));
+                        }
+                    }
+                    if got != expect {
+                        problems.push(format!("proxy {} reports replication roles {:?} but the broker's view is {:?}", a, got, expect));
+                    }
+                }
+            }
             // replication roles as applied to the Redis nodes
             for n in want.get_nodes() {
                 if let Some(r) = net.redis(n.get_address()) {
